@@ -1,0 +1,220 @@
+//go:build verif
+
+package nexus
+
+// Contracts for the verification machinery (govc): comment-only file,
+// compiled (to nothing) only under the build tag "verif".
+//
+// Ghost state of the input: gfield(r, rem) = runes left in the bufio.Reader r
+// (assumed contract of ReadRune/UnreadRune in specs/externs.spec).
+// Progress measure of the parser: M = 2*rem + buf.n  (a token taken from the
+// one-token push-back buffer lowers it by 1, a token read from the input by >= 2).
+
+//@ pure func nxrem(s *Scanner) int = gfield(s.r, rem)
+//@ pure func nxsok(s *Scanner) bool = s != nil && s.r != nil && gfield(s.r, rem) >= 0
+
+//@ func (*Scanner).read
+//@   props C03
+//@   requires nxsok(s)
+//@   ensures nxsok(s) && s.r == old(s.r)
+//@   ensures nxrem(s) == old(nxrem(s)) || (nxrem(s) == old(nxrem(s)) - 1 && gfield(s.r, unread) == 1)
+//@   ensures nxrem(s) == old(nxrem(s)) ==> result == 0 && gfield(s.r, unread) == 0
+//@   ensures old(nxrem(s)) > 0 ==> nxrem(s) == old(nxrem(s)) - 1
+//@   modifies gfield(s.r, rem), gfield(s.r, unread)
+
+//@ func (*Scanner).unread
+//@   props C03
+//@   requires nxsok(s)
+//@   ensures nxsok(s) && s.r == old(s.r) && gfield(s.r, unread) == 0
+//@   ensures nxrem(s) == old(nxrem(s)) + (old(gfield(s.r, unread)) == 1 ? 1 : 0)
+//@   modifies gfield(s.r, rem), gfield(s.r, unread)
+
+// scanWhitespace is entered after an unread of the rune just read: it consumes at least that rune.
+//@ func (*Scanner).scanWhitespace
+//@   props C03
+//@   requires nxsok(s) && nxrem(s) > 0
+//@   ensures nxsok(s) && s.r == old(s.r) && nxrem(s) < old(nxrem(s)) && tok == WS
+//@   modifies gfield(s.r, rem), gfield(s.r, unread), gf(buflen), gfa(bufdata)
+//@   loop 1
+//@     invariant nxsok(s) && s.r == old(s.r) && nxrem(s) < old(nxrem(s))
+//@     decreases nxrem(s)
+
+// scanIdent may be entered at end of input (a lone \r as last byte: the failed read cannot be unread):
+// it then returns a one-rune identifier without consuming anything
+//@ func (*Scanner).scanIdent
+//@   props C03
+//@   requires nxsok(s)
+//@   ensures nxsok(s) && s.r == old(s.r) && nxrem(s) <= old(nxrem(s)) && (old(nxrem(s)) > 0 ==> nxrem(s) < old(nxrem(s))) && len(lit) >= 1
+//@   ensures tok != EOF && tok != ILLEGAL && tok != WS && tok != ENDOFLINE && tok != OPENBRACK && tok != CLOSEBRACK && tok != ENDOFCOMMAND && tok != EQUAL
+//@   modifies gfield(s.r, rem), gfield(s.r, unread), gf(buflen), gfa(bufdata)
+//@   loop 1
+//@     invariant nxsok(s) && s.r == old(s.r) && nxrem(s) <= old(nxrem(s)) && (old(nxrem(s)) > 0 ==> nxrem(s) < old(nxrem(s))) && gf(buflen, buf) >= 1
+//@     decreases nxrem(s)
+
+// Scan: either the end-of-file token, or at least one rune has been consumed; never the ILLEGAL token
+//@ func (*Scanner).Scan
+//@   props C03
+//@   requires nxsok(s)
+//@   ensures nxsok(s) && s.r == old(s.r) && nxrem(s) <= old(nxrem(s))
+//@   ensures tok == EOF || nxrem(s) < old(nxrem(s))
+//@   ensures tok != ILLEGAL
+//@   ensures tok == IDENT || tok == NUMERIC ==> len(lit) >= 1
+//@   modifies gfield(s.r, rem), gfield(s.r, unread), gf(buflen), gfa(bufdata)
+
+// ---- parser ----
+
+//@ pure func nxpok(p *Parser) bool = p != nil && nxsok(p.s) && (p.buf.n == 0 || p.buf.n == 1)
+//@ pure func nxM(p *Parser) int = 2 * nxrem(p.s) + p.buf.n
+
+// scan: the end-of-file token, or the progress measure strictly decreases
+//@ func (*Parser).scan
+//@   props C03
+//@   requires nxpok(p)
+//@   ensures nxpok(p) && p.s == old(p.s) && p.s.r == old(p.s.r) && nxM(p) <= old(nxM(p)) && p.buf.n == 0
+//@   ensures tok == EOF || nxM(p) < old(nxM(p))
+//@   modifies p.buf.n, p.buf.tok, p.buf.lit, gfield(p.s.r, rem), gfield(p.s.r, unread), gf(buflen), gfa(bufdata)
+
+//@ func (*Parser).unscan
+//@   props C03
+//@   requires nxpok(p)
+//@   ensures nxpok(p) && p.buf.n == 1 && nxrem(p.s) == old(nxrem(p.s)) && p.s == old(p.s) && p.s.r == old(p.s.r)
+//@   modifies p.buf.n
+
+//@ func (*Parser).scanIgnoreWhitespace
+//@   props C03
+//@   requires nxpok(p)
+//@   ensures nxpok(p) && p.s == old(p.s) && p.s.r == old(p.s.r) && nxM(p) <= old(nxM(p)) && p.buf.n == 0
+//@   ensures tok == EOF || nxM(p) < old(nxM(p))
+//@   modifies p.buf.n, p.buf.tok, p.buf.lit, gfield(p.s.r, rem), gfield(p.s.r, unread), gf(buflen), gfa(bufdata)
+
+// consumeComment: terminates (also on an unterminated comment: explicit error), returns the closing bracket on success
+//@ func (*Parser).consumeComment
+//@   props C03
+//@   requires nxpok(p)
+//@   ensures nxpok(p) && p.s == old(p.s) && p.s.r == old(p.s.r) && nxM(p) <= old(nxM(p))
+//@   ensures curtoken != OPENBRACK ==> err == nil && outtoken == curtoken && nxM(p) == old(nxM(p))
+//@   ensures curtoken == OPENBRACK && err == nil ==> outtoken == CLOSEBRACK && nxM(p) < old(nxM(p))
+//@   modifies p.buf.n, p.buf.tok, p.buf.lit, gfield(p.s.r, rem), gfield(p.s.r, unread), gf(buflen), gfa(bufdata)
+//@   loop 1
+//@     invariant nxpok(p) && p.s == old(p.s) && p.s.r == old(p.s.r) && nxM(p) <= old(nxM(p)) && curtoken == OPENBRACK
+//@     invariant outtoken == CLOSEBRACK ==> nxM(p) < old(nxM(p))
+//@     decreases nxM(p)
+
+// skip helpers: terminate on every input (end of file inside the command/block is an explicit error)
+//@ func (*Parser).parseUnsupportedCommand
+//@   props C03
+//@   requires nxpok(p)
+//@   ensures nxpok(p) && p.s == old(p.s) && p.s.r == old(p.s.r) && nxM(p) <= old(nxM(p))
+//@   modifies p.buf.n, p.buf.tok, p.buf.lit, gfield(p.s.r, rem), gfield(p.s.r, unread), gf(buflen), gfa(bufdata)
+//@   loop 1
+//@     invariant nxpok(p) && p.s == old(p.s) && p.s.r == old(p.s.r) && nxM(p) <= old(nxM(p))
+//@     decreases (stopunsupported ? 0 : nxM(p) + 1)
+
+//@ func (*Parser).parseUnsupportedKey
+//@   props C03
+//@   requires nxpok(p)
+//@   ensures nxpok(p) && p.s == old(p.s) && p.s.r == old(p.s.r) && nxM(p) <= old(nxM(p))
+//@   ensures err == nil ==> nxM(p) < old(nxM(p))
+//@   modifies p.buf.n, p.buf.tok, p.buf.lit, gfield(p.s.r, rem), gfield(p.s.r, unread), gf(buflen), gfa(bufdata)
+
+//@ func (*Parser).parseUnsupportedBlock
+//@   props C03
+//@   requires nxpok(p)
+//@   ensures nxpok(p) && p.s == old(p.s) && p.s.r == old(p.s.r) && nxM(p) <= old(nxM(p))
+//@   modifies p.buf.n, p.buf.tok, p.buf.lit, gfield(p.s.r, rem), gfield(p.s.r, unread), gf(buflen), gfa(bufdata)
+//@   loop 1
+//@     invariant nxpok(p) && p.s == old(p.s) && p.s.r == old(p.s.r) && nxM(p) <= old(nxM(p))
+//@     decreases (stopunsupported ? 0 : nxM(p) + 1)
+
+// parseTaxa: terminates on every input; thin functional part (the label set is a fresh map)
+//@ pure func nxfr(p *Parser) bool = nxpok(p) && p.s == old(p.s) && p.s.r == old(p.s.r) && nxM(p) <= old(nxM(p))
+//@ func (*Parser).parseTaxa
+//@   props C03
+//@   requires nxpok(p)
+//@   ensures nxfr(p) && result1 != nil && fresh(result1)
+//@   modifies p.buf.n, p.buf.tok, p.buf.lit, gfield(p.s.r, rem), gfield(p.s.r, unread), gf(buflen), gfa(bufdata)
+//@   loop 1
+//@     invariant nxfr(p) && taxlabels != nil && fresh(taxlabels)
+//@     decreases (stoptaxa ? 0 : nxM(p) + 1)
+//@   loop 2
+//@     invariant nxfr(p) && taxlabels != nil && fresh(taxlabels) && nxM(p) + 1 < $v1
+//@     decreases (stopdimensions ? 0 : nxM(p) + 1)
+//@   loop 3
+//@     invariant nxfr(p) && taxlabels != nil && fresh(taxlabels) && nxM(p) + 1 < $v1
+//@     decreases (stoplabels ? 0 : nxM(p) + 1)
+
+//@ pure func nxkeys(names []string, sequences map[string]string) bool = forall i :: 0 <= i && i < len(names) ==> has(sequences, names[i])
+//@ pure func nxuniq(names []string) bool = forall i, j :: 0 <= i && i < j && j < len(names) ==> names[i] != names[j]
+//@ pure func nxtab(names []string, sequences map[string]string) bool = sequences != nil && names != nil && len(names) == len(sequences) && nxkeys(names, sequences) && nxuniq(names)
+
+// parseData: terminates on every input, no panic; the name list and the name->sequence map have the same size
+// (every name of the list is a key of the map, names are appended only when the key is new)
+//@ func (*Parser).parseData
+//@   props C03
+//@   requires nxpok(p)
+//@   ensures nxfr(p)
+//@   ensures fresh(sequences) && nxtab(names, sequences)
+//@   modifies p.buf.n, p.buf.tok, p.buf.lit, gfield(p.s.r, rem), gfield(p.s.r, unread), gf(buflen), gfa(bufdata)
+//@   loop 1
+//@     invariant nxfr(p) && fresh(sequences) && nxtab(names, sequences)
+//@     decreases (stopdata ? 0 : nxM(p) + 1)
+//@   loop 2
+//@     invariant nxfr(p) && sequences != nil && fresh(sequences) && nxM(p) + 1 < $v1
+//@     decreases (stopdimensions ? 0 : nxM(p) + 1)
+//@   loop 3
+//@     invariant nxfr(p) && sequences != nil && fresh(sequences) && nxM(p) + 1 < $v1
+//@     decreases (stopformat ? 0 : nxM(p) + 1)
+//@   loop 4
+//@     invariant nxfr(p) && fresh(sequences) && nxM(p) + 1 < $v1 && nxtab(names, sequences)
+//@     decreases (stopmatrix ? 0 : nxM(p) + 1)
+//@   loop 5
+//@     invariant nxfr(p) && sequences != nil && fresh(sequences) && nxM(p) + 1 < $v1 && nxM(p) + 1 < $v4
+//@     decreases (stopseq ? 0 : nxM(p) + 1)
+
+// Parse: terminates; success implies a well-formed, non-empty alignment
+//@ func (*Parser).Parse
+//@   props C03
+//@   requires nxpok(p)
+//@   ensures err == nil ==> al != nil && wfa(al)
+//@   ensures err == nil ==> nrows(al) >= 1 && al.length >= 0
+// consistency with the header (the declared counts are locals of Parse, hence a `hint`, proved at every return):
+//@   hint err == nil ==> ntax == -1 || nrows(al) == ntax
+// NOT COVERED: `hint err == nil ==> nchar == -1 || al.length == nchar`. The code compares len(seq) with nchar BEFORE the three
+// strings.Replace calls; the lengths agree afterwards only because gap/missing/matchchar are single ASCII bytes (the lexer
+// re-encodes every rune as valid UTF-8, so a one-byte literal is ASCII) - a fact about the CONTENT of bytes.Buffer.String()
+// that the ghost model (length only) does not carry.
+//@   modifies p.buf.n, p.buf.tok, p.buf.lit, gfield(rem), gfield(unread), gf(buflen), gfa(bufdata), field(align.seqbag.seqs), field(align.align.length), mem(*align.seq), maps(map[string]*align.seq), field(align.seqbag.alphabet), field(align.seqbag.ignoreidentical), mem(uint8), mem(any)
+//@   loop 1
+//@     invariant nxpok(p) && err == nil && al == nil
+//@     invariant sequences != nil ==> nxtab(names, sequences)
+//@     decreases nxM(p)
+//@   loop 2
+//@     invariant err == nil && al != nil && wfa(al) && isalign(al) && nxtab(names, sequences)
+//@     invariant nrows(al) == $i && (forall r :: 0 <= r && r < $i ==> rowname(al, r) == names[r])
+//@     invariant ntax == -1 || len(names) == ntax
+
+// the function literal given to al.Iterate (checks a row name against the TAXLABELS set): no panic, never asks to stop
+//@ func (*Parser).Parse$1
+//@   props C03
+//@   ensures result == false
+
+// constructors establish the parser invariant required by Parse (input = any byte string: rem >= 0 unknown)
+//@ func NewScanner
+//@   props C03
+//@   ensures nxsok(result) && fresh(result)
+//@   modifies nothing
+//@ func NewParser
+//@   props C03
+//@   ensures nxpok(result) && fresh(result) && result.buf.n == 0
+//@   modifies nothing
+//@ func (*Parser).IgnoreIdentical
+//@   props C03
+//@   requires nxpok(p)
+//@   ensures result == p && nxpok(p) && nxM(p) == old(nxM(p))
+//@   modifies p.ignoreidentical
+//@ func (*Parser).Alphabet
+//@   props C03
+//@   requires nxpok(p)
+//@   ensures result == p && nxpok(p) && nxM(p) == old(nxM(p))
+//@   ensures p.alphabet == 2 || p.alphabet == 1 || p.alphabet == 0   // align.BOTH, align.NUCLEOTIDS, align.AMINOACIDS (constants of another package are not nameable here)
+//@   modifies p.alphabet
